@@ -38,7 +38,7 @@ META = {
     },
 }
 CASES = {'quick': 1400, 'thorough': 150000}
-SECONDS = {'quick': 60, 'thorough': 600}
+SECONDS = {'quick': 300, 'thorough': 600}
 
 TINY_SPEC = {
     'formatVersion': '1.0.0', 'defines': {'id': 'org.mtv.tiny', 'version': '1.0.0'},
